@@ -27,6 +27,9 @@ type Clock struct {
 	Steps int
 
 	hist []segment // closed segments, oldest first (for ground-truth queries about the past)
+
+	// Fixed, if non-nil, is what Now returns (worlds that script every clock reading).
+	Fixed *time.Time
 }
 
 type segment struct {
@@ -87,7 +90,12 @@ func (c *Clock) At(t time.Time) time.Time {
 	return t.Add(c.OffsetAt(t)).UTC()
 }
 
-func (c *Clock) Now() time.Time { return c.At(time.Now()) }
+func (c *Clock) Now() time.Time {
+	if c.Fixed != nil {
+		return *c.Fixed
+	}
+	return c.At(time.Now())
+}
 
 func (c *Clock) Epoch() uint64 { c.mu.Lock(); defer c.mu.Unlock(); return c.epoch }
 
